@@ -132,7 +132,8 @@ class SimCalculateFull(Contract):
     name = f"{SIM}.calculate"
     prop = ("C17", "C18", "C01")
     top_level = True
-    cases = tuple((t, d) for t in ("simple", "full") for d in (0, 1, 2)) + (("simple", "period-given-as-text"), ("full", "period-given-as-text"))
+    cases = tuple((t, d) for t in ("simple", "full") for d in (0, 1, 2)) + (("simple", "period-given-as-text"), ("full", "period-given-as-text"),
+                                                                            ("full", "same-request-traced-before"))
     descr = ("on every exit, normal or exceptional (any exception, a user interrupt included), the evaluation stack is what it was at "
              "entry, the trace position is restored, the request appears exactly once in the trace under the node current at entry "
              "(with the value returned), and the purge of invalidated entries has run; the value returned is what _calculate returns; "
@@ -148,6 +149,23 @@ class SimCalculateFull(Contract):
             return {"self": w.sim, "variable_name": "v", "period": "2013-01", "__w": w, "__text": True,
                     "__stack0": list(w.stack.items), "__trees0": list(w.trees.items),
                     "__children0": list(w.entry_node.fields["children"].items) if w.entry_node else None}
+        if depth == "same-request-traced-before":
+            # history: the same variable at the same period was requested (and traced) before and returned another array; the trace of
+            # this request records what THIS request returned
+            w = World18(I, ctx, tracer, 0)
+            p = mk_period(I, "month", mk_instant(I, 2017, 1, 1), 1)       # a concrete period: tables keyed by it stay executable
+            f, _ = self.target(I)
+            ctx.depth += 1
+            try:
+                earlier = I.inline_call(ctx, f, [], {"self": w.sim, "variable_name": "v", "period": p})
+            except ExcVal:
+                from pyvc.ctx import PathEnd
+                raise PathEnd()
+            finally:
+                ctx.depth -= 1
+            ctx.ghost["log"] = []
+            return {"self": w.sim, "variable_name": "v", "period": p, "__w": w, "__earlier": earlier,
+                    "__stack0": list(w.stack.items), "__trees0": list(w.trees.items), "__children0": None}
         w = World18(I, ctx, tracer, depth)
         return {"self": w.sim, "variable_name": "v", "period": sym_period(I, ctx, "month"), "__w": w,
                 "__stack0": list(w.stack.items), "__trees0": list(w.trees.items),
@@ -208,6 +226,8 @@ class SimCalculateFull(Contract):
                             n.fields.get("parent") is w.entry_node))
                 if calc[0]["kind"] == "return":
                     res.append(("trace-node-carries-the-value-returned", n.fields.get("value") is calc[0]["value"]))
+                    if "__earlier" in a:
+                        res.append(("not-the-value-an-earlier-request-of-the-same-variable-and-period-returned", n.fields.get("value") is not a["__earlier"]))
                 else:
                     res.append(("trace-node-of-a-failed-request-has-no-value", n.fields.get("value") is None))
         return res
